@@ -13,7 +13,7 @@ import (
 	"os"
 	"path/filepath"
 
-	"golang.org/x/tools/go/ssa"
+	"trzszlint/xssa"
 )
 
 type varRef struct {
